@@ -88,7 +88,8 @@ def render_bld(sysdef):
     vols = dict(DEFAULT_VOLUMES)
     vols.update(sysdef.get("volumes", {}))
     used = {rn for name in sysdef["types"] for rn, _ in get_typedef(sysdef, name)["res"]}
-    out = ["[ volumes ]"] + [f"{k} {v}" for k, v in vols.items() if k in used]
+    out = list(sysdef.get("bld_pre", []))
+    out += ["[ volumes ]"] + [f"{k} {v}" for k, v in vols.items() if k in used]
     out += sysdef.get("bld_extra", [])
     return "\n".join(out) + "\n"
 
@@ -156,6 +157,13 @@ def run_gen_coords(sysdef, chooser, workdir=None, **opts):
         argv = sys.argv
         sys.argv = ["polyply", "gen_coords"]
         vgro.write_gro = spy_write
+        orig_bm = gcm.Backmap.run_system
+
+        def spy_bm(self, topology, *a, **k):
+            out = orig_bm(self, topology, *a, **k)
+            res["topology"] = topology
+            return out
+        gcm.Backmap.run_system = spy_bm
         try:
             with seams.installed(chooser, events=events, **opts) as book, capture_logs() as logs, \
                     contextlib.redirect_stdout(io.StringIO()):
@@ -172,6 +180,7 @@ def run_gen_coords(sysdef, chooser, workdir=None, **opts):
             res["logs"] = logs.records
         finally:
             vgro.write_gro = orig_write
+            gcm.Backmap.run_system = orig_bm
             sys.argv = argv
             res["pending_after"] = drain_deferred()
         if (d / "out.gro").exists():
